@@ -53,7 +53,7 @@ Proof. exists 4%nat, (-7 # 25)%Q, (24 # 25)%Q, (22 # 25)%Q, (-4 # 25)%Q. vm_comp
 
 (* non-vacuity of H_quad: a configuration where the rule is right *)
 Example C02_hquad_example :
-  let r := vector_from_vertex QOps 3 (0 # 1) (1 # 1) (1 # 2) (-1 # 8) in let t := oriented_tangent QOps (0 # 1) (1 # 1) (1 # 2) (-1 # 8) in
+  let r := vector_from_vertex QOps 3 (0 # 1)%Q (1 # 1)%Q (1 # 2)%Q (-1 # 8)%Q in let t := oriented_tangent QOps (0 # 1)%Q (1 # 1)%Q (1 # 2)%Q (-1 # 8)%Q in
   Qeq_bool (fst r) (fst t) = true /\ Qeq_bool (snd r) (snd t) = true.
 Proof. vm_compute. split; reflexivity. Qed.
 
